@@ -35,6 +35,7 @@ pub fn eval_check(check: &str, case: &Case, replies: &[String]) -> Result<(), St
                     let k = it.next().unwrap();
                     // ids from 9_000_000_000 stand for a body made of that many statement separators only
                     match k.parse::<u64>() {
+                        Ok(v) if v >= 9_200_000_000 => format!("{} {}\n", n, ["DATA 0", "DATA -0", "DATA 0, -0", "DATA -0, 0"][(v - 9_200_000_000) as usize]),
                         Ok(v) if v >= 9_000_000_000 => format!("{} {}\n", n, vec![":"; (v - 9_000_000_000) as usize].join(" ")),
                         _ => format!("{} PRINT {}\n", n, k),
                     }
@@ -510,7 +511,8 @@ pub fn eval_session_check(check: &str, case: &Case, replies: &[String]) -> Optio
         // C20 oracle on one `lsp` reply
         ["lsp-wellformed", i] => {
             let i: usize = i.parse().unwrap();
-            let doc = case.ops[i].split(' ').nth(1).and_then(crate::imp::unhex).unwrap_or_default();
+            let arg = if case.ops[i].starts_with("lspu") { 2 } else { 1 };
+            let doc = case.ops[i].split(' ').nth(arg).and_then(crate::imp::unhex).unwrap_or_default();
             lsp_wellformed(&doc, &replies[i])
         }
         // C06: analysis error on a straight-line line => executing it fails
@@ -612,6 +614,17 @@ pub fn eval_session_check(check: &str, case: &Case, replies: &[String]) -> Optio
                 }
             }
             res
+        }
+        // C09: the statements in this range of the session each took a host call of their own
+        ["turns-at-least", r, n] => {
+            let (a, b) = parse_range(r);
+            let n: usize = n.parse().unwrap();
+            let turns = (a..=b.min(case.ops.len() - 1)).filter(|&k| is_call(&case.ops[k]) && replies[k] == "ok").count();
+            if turns >= n {
+                Ok(())
+            } else {
+                Err(format!("{} statements were executed in only {} host calls (ops {}-{}): some call ran more than one statement", n, turns, a, b))
+            }
         }
         ["no-syntax-error"] => {
             let mut res = Ok(());
